@@ -5,6 +5,7 @@ import KrakenModel.Model.PassiveHealth
 
    cfg fails=<int> timeout=<ns>                     raw PassiveFilterConfig (before applyDefaults)
    op failed a<i>        => ok                      PassiveFilter.Failed
+   op pfailed a<i>       => ok                      Passive.Failed (must reach PassiveFilter.Failed)
    op run <addrs|->      => <sorted healthy>        PassiveFilter.Run
    op resolve <addrs|->  => <sorted hosts>          Passive.Resolve over that host list
    op adv <ns>           => ok                      clock advance
@@ -50,10 +51,7 @@ def monRun (s : St) (addrs : List Nat) (implOut : List Nat) : List String :=
       [s!"side=impl key=filter-spurious {hostTok a} is filtered out at t={s.gnow} although no failure within {s.cfg.failTimeout} has {s.cfg.fails} failures in its window (failures {failTimes s.glog a})"]) ++
   ((implOut.filter (fun a => !addrs.contains a)).map fun a => s!"side=impl key=filter-unlisted {hostTok a} is returned but was not in the list")
 
-def step (s : St) (kind : String) (args impl : List String) : Option (St × StepOut) :=
-  if kind ≠ "op" then none else
-  match args with
-  | ["failed", ht] => do
+def failedStep (s : St) (ht : String) : Option (St × StepOut) := do
     let h ← host? ht
     let before := (s.m.recs h).unhealthy
     let m' := failed s.cfg s.m h
@@ -61,6 +59,12 @@ def step (s : St) (kind : String) (args impl : List String) : Option (St × Step
     let br := if marked then (if before.isSome then "failed.remark" else "failed.mark") else
       s!"failed.count{min (m'.recs h).failures.length 3}"
     pure ({ s with m := m', glog := s.glog ++ [(h, s.gnow)] }, { obs := ["ok"], branch := br })
+
+def step (s : St) (kind : String) (args impl : List String) : Option (St × StepOut) :=
+  if kind ≠ "op" then none else
+  match args with
+  | ["failed", ht] => failedStep s ht
+  | ["pfailed", ht] => failedStep s ht   -- Passive.Failed, the call site clients use
   | ["run", lt] => do
     let addrs ← (list? lt).mapM host?
     let (m', out) := runF s.cfg s.m addrs
@@ -92,6 +96,13 @@ def step (s : St) (kind : String) (args impl : List String) : Option (St × Step
 
 def machine : Machine := { σ := St, name := "ph", init := init, step := step }
 
+/-- Machine `phc` (concurrent callers of one filter) carries no model replay: the harness judges the
+implementation with the rule itself (`propfail` records) and reports what it ran. -/
+def echoStep (_ : Unit) (kind : String) (args impl : List String) : Option (Unit × StepOut) :=
+  if kind ≠ "op" then none else some ((), { obs := impl, branch := s!"{args.headD "?"}" })
+
+def concMachine : Machine := { σ := Unit, name := "phc", init := fun _ => some (), step := echoStep }
+
 end C24
 
-def main (args : List String) : IO UInt32 := runMachines [C24.machine] args
+def main (args : List String) : IO UInt32 := runMachines [C24.machine, C24.concMachine] args
